@@ -372,12 +372,17 @@ theorem bd_recoverStop (statesLen : Nat) (s : St) (top : Nat) (la : Option Token
       | some l => exact (hla l rfl).1
       | none => exact hst
 
-theorem inv_push (s : St) (states : List Nat) (x : Sym) (syms : List Sym)
-    (hc : Chain C states (x :: syms)) (hx : GoodSym I x) (hs : ∀ y ∈ syms, GoodSym I y) (hg : GoodSt I s) :
-    Inv C I { s with states := states, syms := x :: syms } :=
+/-- a state that differs from a good one only in its stacks (and ghost fields) -/
+theorem inv_push (s s' : St) (x : Sym) (syms : List Sym)
+    (hsy : s'.syms = x :: syms) (hc : Chain C s'.states s'.syms)
+    (hlex : s'.input = s.input ∧ s'.pos = s.pos ∧ s'.last = s.last)
+    (hx : GoodSym I x) (hs : ∀ y ∈ syms, GoodSym I y) (hg : GoodSt I s) :
+    Inv C I s' :=
   { chain := hc
-    good := { lex := hg.lex, last := hg.last
+    good := { lex := by rw [hlex.1, hlex.2.1]; exact hg.lex
+              last := by rw [hlex.2.2]; exact hg.last
               syms := by
+                rw [hsy]
                 intro y hy
                 rcases List.mem_cons.mp hy with rfl | hy
                 · exact hx
@@ -424,18 +429,22 @@ theorem recoverPush_inv (F : CertFacts T C) (error : ParseErr) (herr : GoodErr I
         ({ start := recoverStart s top dropped, id := T.ncols - 1, name := "error", val := .recovery error dropped, stop := recoverStop statesLen s top la dropped (recoverStart s top dropped) } :: (s.syms.reverse.take top).reverse) := by
       rw [hsyms, hq]
       exact Chain.step hdrop hedge
-    have hinv := inv_push C I s _ _ _ hchain ⟨hstart, hstop, herr, hf.dropped_good⟩
-      (by intro x hx; rw [hsyms] at hx; exact h.good.syms x (List.mem_of_mem_drop hx)) h.good
+    have hinv : ∀ (s' : St), s'.states = errState :: s.states.drop (statesLen - 1 - top) →
+        s'.syms = { start := recoverStart s top dropped, id := T.ncols - 1, name := "error", val := .recovery error dropped, stop := recoverStop statesLen s top la dropped (recoverStart s top dropped) } :: (s.syms.reverse.take top).reverse →
+        (s'.input = s.input ∧ s'.pos = s.pos ∧ s'.last = s.last) → Inv C I s' := by
+      intro s' h1 h2 h3
+      exact inv_push C I s s' _ _ h2 (by rw [h1, h2]; exact hchain) h3 ⟨hstart, hstop, herr, hf.dropped_good⟩
+        (by intro x hx; rw [hsyms] at hx; exact h.good.syms x (List.mem_of_mem_drop hx)) h.good
     have hlc := hf.la_col
     cases la with
     | some l =>
       cases col with
-      | some c => exact ⟨hinv, hf.la_good l rfl, rfl⟩
+      | some c => exact ⟨hinv _ rfl rfl ⟨rfl, rfl, rfl⟩, hf.la_good l rfl, rfl⟩
       | none => simp at hlc
     | none =>
       cases col with
       | some c => simp at hlc
-      | none => exact ⟨hinv, rfl⟩
+      | none => exact ⟨hinv _ rfl rfl ⟨rfl, rfl, rfl⟩, rfl⟩
 
 theorem good_unrecognized (s : St) (la : Option Token) (h : GoodSt I s) (hla : ∀ t, la = some t → GoodTok I t) :
     GoodErr I (unrecognized T s la) := by
@@ -539,12 +548,11 @@ theorem parseInner_inv (F : CertFacts T C) (hA : ActionsSafe T env I) :
       dsimp only
       obtain ⟨st, hst⟩ := topState_of_chain C h.chain
       have hedge := F.shift (topState s) col target hs
-      have hchain : Chain C (target :: s.states)
-          ({ start := la.start, id := col, name := T.terminals[col]?.getD "?", val := .tok la.text, stop := la.stop } :: s.syms) := by
-        have hc := h.chain
-        rw [hst] at hc ⊢
-        exact Chain.step hc hedge
-      exact inv_push C I s _ _ _ hchain ⟨hla.1, hla.2, trivial⟩ h.good.syms h.good
+      refine inv_push C I s _ _ s.syms rfl ?_ ⟨rfl, rfl, rfl⟩ ⟨hla.1, hla.2, trivial⟩ h.good.syms h.good
+      show Chain C (target :: s.states) (_ :: s.syms)
+      have hc := h.chain
+      rw [hst] at hc ⊢
+      exact Chain.step hc hedge
     | none =>
       dsimp only
       cases hr : asReduce (actionAt T (topState s) col) with
